@@ -236,3 +236,25 @@ func (c *Client) VerifHsSession() (ok bool, id SessionID, c2s, s2c [KeyLen]byte)
 func (c *Client) VerifHsClientStep(addr *net.UDPAddr, msg []byte) error {
 	return c.handleSessionMessage(addr, msg)
 }
+
+// ---------------------------------------------------------------- transport packets with known keys
+
+// VerifHsSeal builds the transport packet a party holding key would send as its count-th packet.
+func VerifHsSeal(sid SessionID, key [KeyLen]byte, count uint64, mt MessageType, pt []byte) ([]byte, error) {
+	ss := &SessionState{sessionID: sid, count: count}
+	return ss.sealPacketLocked(mt, pt, &key)
+}
+
+// VerifHsOpen opens a transport packet with key (fresh replay window).
+func VerifHsOpen(sid SessionID, key [KeyLen]byte, pkt []byte) ([]byte, error) {
+	ss := &SessionState{sessionID: sid}
+	if PlaintextLen(len(pkt)) < 0 {
+		return nil, ErrBufUnderflow
+	}
+	pt := make([]byte, PlaintextLen(len(pkt)))
+	n, _, err := ss.readPacketLocked(pt, pkt, &key)
+	if err != nil {
+		return nil, err
+	}
+	return pt[:n], nil
+}
